@@ -27,6 +27,7 @@ def declare(rep):
     rep.rule("C01.free-slot-pairing", "delete_*: every path resets the element and queues its slot once; add_*: every path either pops a tested-non-empty queue or appends, sets id and used flag, returns the id", floor=4)
     rep.rule("C01.add-face-siblings", "add_face: every path registers the face on the edges (n1,n2),(n2,n3),(n3,n1), refresh normal/area, set the owner; delete_face looks up the same pairs", floor=2)
     rep.rule("C01.split-winding", "split_edge: the sub-faces of (x,a,b) keep its orientation: then-branch faces are even, else-branch faces odd permutations of (x,a,b) with the midpoint in place of a or b; the test uses the cached normal of the face x belongs to", floor=2)
+    rep.rule("C01.split-worklist", "split_edge: on the work-list copy of an outer edge (x,y) a face id is replaced only if the replaced parent face and the new face both contain x and y (face slots are recycled: replacing the id of a face that never bordered the edge rewrites the entry of a recycled slot)", floor=4)
     rep.rule("C01.swap-winding", "swap_edge: every new face is wound against a surviving neighbour that shares an edge with it", floor=2)
     rep.rule("C01.swap-precondition", "swap_edge: before it deletes anything it returns when the edge joining the two opposite nodes (the edge the swap creates) already exists", floor=1)
     rep.rule("C01.edge-key-width", "edge::hash (the key that orders edge_set_) multiplies node ids in arithmetic that cannot wrap for 32-bit ids: a wrapped Cantor pairing gives two edges one key and add_face registers a face on the wrong edge", floor=1)
@@ -167,6 +168,7 @@ def run(rep, prog, tier):
     normal_follows_winding(rep, prog)
     worklist_filter(rep, prog)
     split_winding(rep, prog)
+    split_worklist(rep, prog)
     swap_winding(rep, prog)
     swap_precondition(rep, prog)
     edge_key_width(rep, prog)
@@ -460,6 +462,71 @@ def _local_defs(fn, did):
             if l.get("k") == "DeclRefExpr" and l["ref"].get("did") == did:
                 out.append(ops[1])
     return out
+
+
+def split_worklist(rep, prog):
+    from ..model import def_chain
+    fn = prog.fn("local_mesh_refiner::split_edge")
+
+    def callees(e):
+        return {x.get("callee") for d_ in def_chain(fn, e, depth=7) for x in walk(d_) if is_call(x)}
+
+    def node_tag(e):
+        cs = callees(e)
+        if "cell::add_node" in cs:
+            return "e"
+        if "face::get_opposite_node" in cs:
+            return "c" if ("edge::f1" in cs and "edge::f2" not in cs) else ("d" if ("edge::f2" in cs and "edge::f1" not in cs) else None)
+        if "edge::n1" in cs and "edge::n2" not in cs:
+            return "a"
+        if "edge::n2" in cs and "edge::n1" not in cs:
+            return "b"
+        return None
+
+    def face_nodes(e, depth=0):
+        """node tags of the face an id expression designates: a parent face (e_ab.f1() / f2()) or a face made by create_face -
+        through copies and through every assignment of an id variable (both branches of the winding decision)"""
+        e0 = strip(e)
+        while e0.get("k") == "ParenExpr" and e0.get("c"):
+            e0 = strip(e0["c"][0])
+        if is_call(e0) and e0.get("callee") == "cell::create_face":
+            t = frozenset(node_tag(a) for a in call_args(e0))
+            return None if None in t else t
+        if is_call(e0) and e0.get("callee") in ("edge::f1", "edge::f2"):
+            return frozenset("abc") if e0["callee"] == "edge::f1" else frozenset("abd")
+        if e0.get("k") == "ConditionalOperator" and len(e0.get("c", [])) == 3:
+            s1, s2 = face_nodes(e0["c"][1], depth), face_nodes(e0["c"][2], depth)
+            return s1 if s1 is not None and s1 == s2 else None
+        if e0.get("k") == "DeclRefExpr" and (e0.get("ref") or {}).get("dk") in ("Var", "ParmVar", "Binding") and depth < 6:
+            defs = _local_defs(fn, e0["ref"]["did"])
+            sets = {face_nodes(d_, depth + 1) for d_ in defs}
+            return sets.pop() if len(sets) == 1 else None
+        return None
+    n = 0
+    for call in walk(fn["body"]):
+        if call.get("k") != "CXXMemberCallExpr" or call.get("callee") != "edge::replace_face":
+            continue
+        obj = call_obj(call)
+        finds = [x for d_ in def_chain(fn, obj, depth=7) for x in walk(d_) if is_call(x) and x.get("callee", "").endswith("::find")]
+        if not finds:
+            continue        # not a work-list copy (e.g. the cell's own edge set is maintained by add_face / delete_face)
+        ctor = [x for x in walk(finds[0]) if x.get("k") in ("CXXConstructExpr", "CXXTemporaryObjectExpr", "CXXFunctionalCastExpr") and (x.get("t") or "").replace("const ", "") == "edge" and len([c_ for c_ in x.get("c", []) if isinstance(c_, dict)]) == 2]
+        if not ctor:
+            raise AnalysisBroken("split_edge: the edge looked up in the work list at line %s is not built from two node ids" % call.get("l"))
+        xy = {node_tag(a) for a in ctor[0]["c"] if isinstance(a, dict)}
+        a_ = call_args(call)
+        old, new = face_nodes(a_[0]), face_nodes(a_[1])
+        if None in xy or old is None or new is None:
+            raise AnalysisBroken("split_edge: %s: the nodes of the looked-up edge / of the faces exchanged are not identified (edge %s, old %s, new %s)" % (short(call, 60), sorted(x or "?" for x in xy), old and sorted(old), new and sorted(new)))
+        n += 1
+        if xy <= old and xy <= new:
+            rep.ok("C01.split-worklist", prog, fn, call, "work-list edge (%s): parent face {%s} -> new face {%s}, both contain the edge" % (",".join(sorted(xy)), ",".join(sorted(old)), ",".join(sorted(new))))
+        else:
+            rep.violation("C01.split-worklist", prog, fn, call, "work-list edge (%s) gets a face that does not border it" % ",".join(sorted(xy)),
+                          "%s: on the work-list copy of edge (%s) the face {%s} is replaced by {%s}; %s does not contain both nodes of that edge. Face slots are recycled (the first new face reuses the slot of the second deleted parent), so a test such as has_face(old id) can succeed on an entry that already holds a new face: the copy then names a face that does not contain the edge and the next operation on it corrupts the mesh"
+                          % (short(call, 70), ",".join(sorted(xy)), ",".join(sorted(old)), ",".join(sorted(new)), "the replaced face" if not xy <= old else "the new face"))
+    if n == 0:
+        raise AnalysisBroken("split_edge: no work-list update (replace_face on a looked-up edge) found")
 
 
 def split_winding(rep, prog):
